@@ -17,7 +17,8 @@ ALL = ["C%02d" % i for i in range(1, 21)]
 
 def available():
     d = os.path.join(os.path.dirname(os.path.abspath(__file__)), "props")
-    return sorted(f[:-3].upper() for f in os.listdir(d) if f.startswith("c") and f.endswith(".py"))
+    import re
+    return sorted(f[:-3].upper() for f in os.listdir(d) if re.fullmatch(r"c\d\d\.py", f))
 
 
 def setup():
